@@ -236,6 +236,24 @@ class Setup:
         for r in self.peers:
             r.take_received()
         rows_before = {bytes(x[0]) for x in self.ro.execute("select block_hash from chain")}
+        # sometimes the networking thread is, at this very moment, in the middle of dropping one connection: the socket is
+        # already unregistered and closed, the peer book not yet updated (the two steps of LocalPeer.disconnect) -- sending to
+        # that peer fails; every OTHER active peer must still get the block
+        half_dropped = None
+        if len(self.peers) >= 2 and self.rng.random() < 0.3:
+            nm = node.lp.network_manager
+            active = nm.get_active_peers()
+            if len(active) >= 2:
+                victim = self.rng.choice(active[:-1])           # not the last one in the peer book's order
+                try:
+                    node.lp.selector.unregister(victim.sock)
+                    if self.rng.random() < 0.5:
+                        victim.sock.close()         # (both steps done / only the first one done)
+                    half_dropped = victim
+                    c["found_while_a_connection_is_half_dropped"] = c.get("found_while_a_connection_is_half_dropped", 0) + 1
+                    w = dict(w, connection_half_dropped=True)
+                except Exception:
+                    half_dropped = None
         # in a fifth of the cases the OTHER thread of a running node (networking) is in the middle of a store flush -- between
         # "rows written" and "buffer cleared" -- at the moment the miner's handler hands its block to the store
         flush_thread = None
@@ -272,6 +290,14 @@ class Setup:
             if flush_thread is not None:
                 release.set()
                 flush_thread.join(10)
+            if half_dropped is not None:
+                # the networking thread finishes what it was doing
+                try:
+                    half_dropped.sock.close()
+                    node.lp.network_manager.handle_peer_disconnected(half_dropped)
+                except Exception:
+                    pass
+                self.peers = [p for p in self.peers if p.peer is not half_dropped.sock]
         self.net.settle(node)
         if node.escaped:
             mon.v("exception-escaped-event-handler", node.escaped[0][:300], w)
@@ -431,6 +457,7 @@ def finalize(m, tier):
                    ("invalid_peer_blocks_after_found_block", c.get("invalid_peer_blocks_after_found_block", 0), 40),
                    ("found_at_retarget_boundary_attempts", c.get("found_at_retarget_boundary_attempts", 0), 15),
                    ("clock_ticks_while_mining", c.get("clock_ticks_while_mining", 0), 300),
-                   ("found_while_other_thread_flushes", c.get("found_while_other_thread_flushes", 0), 30)],
+                   ("found_while_other_thread_flushes", c.get("found_while_other_thread_flushes", 0), 30),
+                   ("found_while_a_connection_is_half_dropped", c.get("found_while_a_connection_is_half_dropped", 0), 20)],
         "extra": {},
     }
